@@ -18,112 +18,113 @@
      NotAMap     the operand comes from an imported package (yaml.Node.Content, a regexp match,
                  a string): a slice or a string, not a map
 
-   A new loop (or a second loop over the same expression in the same function) makes
-   [map_range_sites_known_b] fail.  The classification itself is part of the trusted base. *)
+   Each entry carries a hash of the loop BODY as it was when it was read (the class is a statement
+   about the body).  A new loop, a second loop over the same expression in the same function, or
+   an edited body makes [map_range_sites_known_b] fail: the loop has to be read again.  The classification itself is part of the trusted base. *)
 From AL Require Import Base.Str Base.AList Expr.Types Gen.GenMapRange.
 From Coq Require Import Permutation.
 
 Inductive range_class := KeysSorted | Pure | DistinctPos | FoldMerge | NotAMap.
 
-Definition allowed : list (string * string * string * N * range_class) := [
-  ("ast.go", "RawYAMLObject.Equals", "o.Props", 0%N, Pure);
-  ("ast.go", "RawYAMLObject.String", "o.Props", 0%N, KeysSorted);
-  ("config.go", "Config.PathConfigs", "cfg.Paths", 0%N, Pure);
-  ("config.go", "IgnorePatterns.UnmarshalYAML", "?untyped: n.Content", 0%N, NotAMap);
-  ("error.go", "NewErrorFormatter", "r", 0%N, KeysSorted);
-  ("error.go", "toPascalCase", "?untyped: s", 0%N, NotAMap);
-  ("error.go", "toPascalCase", "?untyped: ss", 0%N, NotAMap);
-  ("expr_insecure.go", "UntrustedInputChecker.onObjectFilter", "cur.Children", 0%N, Pure);
-  ("expr_sema.go", "ExprSemanticsChecker.UpdateDispatchInputs", "ty.Props", 0%N, Pure);
-  ("expr_sema.go", "ExprSemanticsChecker.UpdateSecrets", "ty.Props", 0%N, Pure);
-  ("expr_sema.go", "ExprSemanticsChecker.checkArrayDeref", "ty.Props", 0%N, Pure);
-  ("expr_sema.go", "ExprSemanticsChecker.checkBuiltinFuncCall", "holders", 0%N, KeysSorted);
-  ("expr_sema.go", "ExprSemanticsChecker.checkFuncCall", "sema.funcs", 0%N, KeysSorted);
-  ("expr_sema.go", "ExprSemanticsChecker.checkVariable", "sema.vars", 0%N, KeysSorted);
-  ("expr_sema.go", "ExprSemanticsChecker.ensureVarsCopied", "sema.vars", 0%N, Pure);
-  ("expr_type.go", "ObjectType.Assignable", "other.Props", 0%N, Pure);
-  ("expr_type.go", "ObjectType.Assignable", "other.Props", 1%N, Pure);
-  ("expr_type.go", "ObjectType.Assignable", "ty.Props", 0%N, Pure);
-  ("expr_type.go", "ObjectType.DeepCopy", "ty.Props", 0%N, Pure);
-  ("expr_type.go", "ObjectType.Merge", "other.Props", 0%N, FoldMerge);
-  ("expr_type.go", "ObjectType.Merge", "ty.Props", 0%N, Pure);
-  ("expr_type.go", "ObjectType.String", "ty.Props", 0%N, KeysSorted);
-  ("expr_type.go", "typeOfJSONValue", "v", 0%N, KeysSorted);
-  ("parse.go", "handleYAMLError", "?untyped: te.Errors", 0%N, NotAMap);
-  ("parse.go", "parser.parseEvents", "?untyped: n.Content", 0%N, NotAMap);
-  ("parse.go", "parser.parseMatrix", "?untyped: kv.val.Content", 0%N, NotAMap);
-  ("parse.go", "parser.parseMatrixCombinations", "?untyped: n.Content", 0%N, NotAMap);
-  ("parse.go", "parser.parseRawYAMLValue", "?untyped: n.Content", 0%N, NotAMap);
-  ("parse.go", "parser.parseScheduleEvent", "?untyped: n.Content", 0%N, NotAMap);
-  ("parse.go", "parser.parseSteps", "?untyped: n.Content", 0%N, NotAMap);
-  ("parse.go", "parser.parseStringSequence", "?untyped: n.Content", 0%N, NotAMap);
-  ("pass.go", "Visitor.Visit", "n.Jobs", 0%N, KeysSorted);
-  ("reusable_workflow.go", "LocalReusableWorkflowCache.WriteWorkflowCallEvent", "event.Outputs", 0%N, Pure);
-  ("reusable_workflow.go", "LocalReusableWorkflowCache.WriteWorkflowCallEvent", "event.Secrets", 0%N, Pure);
-  ("reusable_workflow.go", "parseReusableWorkflowMetadata", "?untyped: n.Content", 0%N, NotAMap);
-  ("rule_action.go", "RuleAction.checkAction", "exec.Inputs", 0%N, DistinctPos);
-  ("rule_action.go", "RuleAction.checkAction", "meta.Inputs", 0%N, KeysSorted);
-  ("rule_action.go", "RuleAction.checkAction", "meta.Inputs", 1%N, KeysSorted);
-  ("rule_action.go", "RuleAction.checkAction", "meta.Inputs", 2%N, KeysSorted);
-  ("rule_credentials.go", "RuleCredentials.VisitJobPre", "n.Services.Value", 0%N, DistinctPos);
-  ("rule_deprecated_commands.go", "RuleDeprecatedCommands.VisitStep", "?untyped: deprecatedCommandsPattern.FindAllStringSubmatch(r.Run.Value, -1)", 0%N, NotAMap);
-  ("rule_env_var.go", "RuleEnvVar.VisitJobPre", "n.Services.Value", 0%N, DistinctPos);
-  ("rule_env_var.go", "RuleEnvVar.checkEnv", "env.Vars", 0%N, DistinctPos);
-  ("rule_events.go", "RuleEvents.checkWorkflowDispatchEvent", "event.Inputs", 0%N, DistinctPos);
-  ("rule_expression.go", "RuleExpression.VisitJobPost", "n.Outputs", 0%N, DistinctPos);
-  ("rule_expression.go", "RuleExpression.VisitJobPre", "n.Services.Value", 0%N, DistinctPos);
-  ("rule_expression.go", "RuleExpression.VisitStep", "e.Inputs", 0%N, DistinctPos);
-  ("rule_expression.go", "RuleExpression.VisitWorkflowPre", "e.Inputs", 0%N, DistinctPos);
-  ("rule_expression.go", "RuleExpression.VisitWorkflowPre", "e.Outputs", 0%N, DistinctPos);
-  ("rule_expression.go", "RuleExpression.VisitWorkflowPre", "e.Secrets", 0%N, DistinctPos);
-  ("rule_expression.go", "RuleExpression.checkEnv", "env.Vars", 0%N, DistinctPos);
-  ("rule_expression.go", "RuleExpression.checkMatrix", "combi.Assigns", 0%N, DistinctPos);
-  ("rule_expression.go", "RuleExpression.checkMatrix", "combi.Assigns", 1%N, DistinctPos);
-  ("rule_expression.go", "RuleExpression.checkMatrix", "m.Rows", 0%N, DistinctPos);
-  ("rule_expression.go", "RuleExpression.checkMatrix", "merged.Props", 0%N, Pure);
-  ("rule_expression.go", "RuleExpression.checkMatrixExpression", "matTy.Props", 0%N, Pure);
-  ("rule_expression.go", "RuleExpression.checkMatrixExpression", "o.Props", 0%N, Pure);
-  ("rule_expression.go", "RuleExpression.checkRawYAMLValue", "v.Props", 0%N, DistinctPos);
-  ("rule_expression.go", "RuleExpression.checkWorkflowCall", "c.Inputs", 0%N, DistinctPos);
-  ("rule_expression.go", "RuleExpression.checkWorkflowCall", "c.Secrets", 0%N, DistinctPos);
-  ("rule_expression.go", "RuleExpression.checkWorkflowCallOutputs", "j.Outputs", 0%N, Pure);
-  ("rule_expression.go", "RuleExpression.checkWorkflowCallOutputs", "jobs", 0%N, Pure);
-  ("rule_expression.go", "RuleExpression.checkWorkflowCallOutputs", "outputs", 0%N, DistinctPos);
-  ("rule_expression.go", "RuleExpression.getWorkflowCallOutputsType", "m.Outputs", 0%N, Pure);
-  ("rule_expression.go", "RuleExpression.populateDependantNeedsTypes", "j.Outputs", 0%N, Pure);
-  ("rule_expression.go", "typeOfActionOutputs", "meta.Outputs", 0%N, Pure);
-  ("rule_job_needs.go", "RuleJobNeeds.VisitWorkflowPost", "edges", 0%N, Pure);
-  ("rule_job_needs.go", "RuleJobNeeds.VisitWorkflowPost", "rule.nodes", 0%N, DistinctPos);
-  ("rule_job_needs.go", "detectFirstCycle", "nodes", 0%N, KeysSorted);
-  ("rule_matrix.go", "RuleMatrix.VisitJobPre", "m.Rows", 0%N, DistinctPos);
-  ("rule_matrix.go", "RuleMatrix.checkExclude", "c.Assigns", 0%N, Pure);
-  ("rule_matrix.go", "RuleMatrix.checkExclude", "c.Assigns", 1%N, DistinctPos);
-  ("rule_matrix.go", "RuleMatrix.checkExclude", "m.Rows", 0%N, Pure);
-  ("rule_matrix.go", "RuleMatrix.checkExclude", "rows", 0%N, KeysSorted);
-  ("rule_matrix.go", "isYAMLValueSubset", "sub.Props", 0%N, Pure);
-  ("rule_permissions.go", "RulePermissions.checkPermissions", "allPermissionScopes", 0%N, KeysSorted);
-  ("rule_permissions.go", "RulePermissions.checkPermissions", "p.Scopes", 0%N, DistinctPos);
-  ("rule_runner_label.go", "RuleRunnerLabel.checkConflict", "rule.compats", 0%N, KeysSorted);
-  ("rule_workflow_call.go", "RuleWorkflowCall.checkWorkflowCallUsesLocal", "call.Inputs", 0%N, DistinctPos);
-  ("rule_workflow_call.go", "RuleWorkflowCall.checkWorkflowCallUsesLocal", "call.Secrets", 0%N, DistinctPos);
-  ("rule_workflow_call.go", "RuleWorkflowCall.checkWorkflowCallUsesLocal", "m.Inputs", 0%N, KeysSorted);
-  ("rule_workflow_call.go", "RuleWorkflowCall.checkWorkflowCallUsesLocal", "m.Secrets", 0%N, KeysSorted);
-  ("rule_workflow_call.go", "sortedMapKeys", "m", 0%N, KeysSorted)
+Definition allowed : list (string * string * string * N * string * range_class) := [
+  ("ast.go", "RawYAMLObject.Equals", "o.Props", 0%N, "3632aeb6", Pure);
+  ("ast.go", "RawYAMLObject.String", "o.Props", 0%N, "494d9e57", KeysSorted);
+  ("config.go", "Config.PathConfigs", "cfg.Paths", 0%N, "51551126", Pure);
+  ("config.go", "IgnorePatterns.UnmarshalYAML", "?untyped: n.Content", 0%N, "-", NotAMap);
+  ("error.go", "NewErrorFormatter", "r", 0%N, "ed997a5c", KeysSorted);
+  ("error.go", "toPascalCase", "?untyped: s", 0%N, "-", NotAMap);
+  ("error.go", "toPascalCase", "?untyped: ss", 0%N, "-", NotAMap);
+  ("expr_insecure.go", "UntrustedInputChecker.onObjectFilter", "cur.Children", 0%N, "44e91f8c", Pure);
+  ("expr_sema.go", "ExprSemanticsChecker.UpdateDispatchInputs", "ty.Props", 0%N, "97bb5cb9", Pure);
+  ("expr_sema.go", "ExprSemanticsChecker.UpdateSecrets", "ty.Props", 0%N, "6cdbce94", Pure);
+  ("expr_sema.go", "ExprSemanticsChecker.checkArrayDeref", "ty.Props", 0%N, "51186f54", Pure);
+  ("expr_sema.go", "ExprSemanticsChecker.checkBuiltinFuncCall", "holders", 0%N, "7ff1a9f8", KeysSorted);
+  ("expr_sema.go", "ExprSemanticsChecker.checkFuncCall", "sema.funcs", 0%N, "89753c73", KeysSorted);
+  ("expr_sema.go", "ExprSemanticsChecker.checkVariable", "sema.vars", 0%N, "89753c73", KeysSorted);
+  ("expr_sema.go", "ExprSemanticsChecker.ensureVarsCopied", "sema.vars", 0%N, "ebe29899", Pure);
+  ("expr_type.go", "ObjectType.Assignable", "other.Props", 0%N, "d1160a1e", Pure);
+  ("expr_type.go", "ObjectType.Assignable", "other.Props", 1%N, "70d65860", Pure);
+  ("expr_type.go", "ObjectType.Assignable", "ty.Props", 0%N, "1376b96f", Pure);
+  ("expr_type.go", "ObjectType.DeepCopy", "ty.Props", 0%N, "0e72bd62", Pure);
+  ("expr_type.go", "ObjectType.Merge", "other.Props", 0%N, "360eab31", FoldMerge);
+  ("expr_type.go", "ObjectType.Merge", "ty.Props", 0%N, "9526b5f8", Pure);
+  ("expr_type.go", "ObjectType.String", "ty.Props", 0%N, "448f0f8b", KeysSorted);
+  ("expr_type.go", "typeOfJSONValue", "v", 0%N, "942287a2", KeysSorted);
+  ("parse.go", "handleYAMLError", "?untyped: te.Errors", 0%N, "-", NotAMap);
+  ("parse.go", "parser.parseEvents", "?untyped: n.Content", 0%N, "-", NotAMap);
+  ("parse.go", "parser.parseMatrix", "?untyped: kv.val.Content", 0%N, "-", NotAMap);
+  ("parse.go", "parser.parseMatrixCombinations", "?untyped: n.Content", 0%N, "-", NotAMap);
+  ("parse.go", "parser.parseRawYAMLValue", "?untyped: n.Content", 0%N, "-", NotAMap);
+  ("parse.go", "parser.parseScheduleEvent", "?untyped: n.Content", 0%N, "-", NotAMap);
+  ("parse.go", "parser.parseSteps", "?untyped: n.Content", 0%N, "-", NotAMap);
+  ("parse.go", "parser.parseStringSequence", "?untyped: n.Content", 0%N, "-", NotAMap);
+  ("pass.go", "Visitor.Visit", "n.Jobs", 0%N, "7ce2eff7", KeysSorted);
+  ("reusable_workflow.go", "LocalReusableWorkflowCache.WriteWorkflowCallEvent", "event.Outputs", 0%N, "f75ee667", Pure);
+  ("reusable_workflow.go", "LocalReusableWorkflowCache.WriteWorkflowCallEvent", "event.Secrets", 0%N, "7b25a65f", Pure);
+  ("reusable_workflow.go", "parseReusableWorkflowMetadata", "?untyped: n.Content", 0%N, "-", NotAMap);
+  ("rule_action.go", "RuleAction.checkAction", "exec.Inputs", 0%N, "7847db3a", DistinctPos);
+  ("rule_action.go", "RuleAction.checkAction", "meta.Inputs", 0%N, "da536ae3", KeysSorted);
+  ("rule_action.go", "RuleAction.checkAction", "meta.Inputs", 1%N, "4ea7a1be", KeysSorted);
+  ("rule_action.go", "RuleAction.checkAction", "meta.Inputs", 2%N, "9847eb36", KeysSorted);
+  ("rule_credentials.go", "RuleCredentials.VisitJobPre", "n.Services.Value", 0%N, "c42780df", DistinctPos);
+  ("rule_deprecated_commands.go", "RuleDeprecatedCommands.VisitStep", "?untyped: deprecatedCommandsPattern.FindAllStringSubmatch(r.Run.Value, -1)", 0%N, "-", NotAMap);
+  ("rule_env_var.go", "RuleEnvVar.VisitJobPre", "n.Services.Value", 0%N, "61a0adc4", DistinctPos);
+  ("rule_env_var.go", "RuleEnvVar.checkEnv", "env.Vars", 0%N, "32ae5842", DistinctPos);
+  ("rule_events.go", "RuleEvents.checkWorkflowDispatchEvent", "event.Inputs", 0%N, "b4e75c58", DistinctPos);
+  ("rule_expression.go", "RuleExpression.VisitJobPost", "n.Outputs", 0%N, "71409529", DistinctPos);
+  ("rule_expression.go", "RuleExpression.VisitJobPre", "n.Services.Value", 0%N, "6591cc09", DistinctPos);
+  ("rule_expression.go", "RuleExpression.VisitStep", "e.Inputs", 0%N, "e03a7e8d", DistinctPos);
+  ("rule_expression.go", "RuleExpression.VisitWorkflowPre", "e.Inputs", 0%N, "981574aa", DistinctPos);
+  ("rule_expression.go", "RuleExpression.VisitWorkflowPre", "e.Outputs", 0%N, "a5e1850e", DistinctPos);
+  ("rule_expression.go", "RuleExpression.VisitWorkflowPre", "e.Secrets", 0%N, "9c5efeae", DistinctPos);
+  ("rule_expression.go", "RuleExpression.checkEnv", "env.Vars", 0%N, "3197e653", DistinctPos);
+  ("rule_expression.go", "RuleExpression.checkMatrix", "combi.Assigns", 0%N, "7aeaa4d0", DistinctPos);
+  ("rule_expression.go", "RuleExpression.checkMatrix", "combi.Assigns", 1%N, "5249e955", DistinctPos);
+  ("rule_expression.go", "RuleExpression.checkMatrix", "m.Rows", 0%N, "bf35e80d", DistinctPos);
+  ("rule_expression.go", "RuleExpression.checkMatrix", "merged.Props", 0%N, "4823410c", Pure);
+  ("rule_expression.go", "RuleExpression.checkMatrixExpression", "matTy.Props", 0%N, "4823410c", Pure);
+  ("rule_expression.go", "RuleExpression.checkMatrixExpression", "o.Props", 0%N, "63b6238b", Pure);
+  ("rule_expression.go", "RuleExpression.checkRawYAMLValue", "v.Props", 0%N, "488f7c1f", DistinctPos);
+  ("rule_expression.go", "RuleExpression.checkWorkflowCall", "c.Inputs", 0%N, "85c53756", DistinctPos);
+  ("rule_expression.go", "RuleExpression.checkWorkflowCall", "c.Secrets", 0%N, "a5de8f72", DistinctPos);
+  ("rule_expression.go", "RuleExpression.checkWorkflowCallOutputs", "j.Outputs", 0%N, "97bb5cb9", Pure);
+  ("rule_expression.go", "RuleExpression.checkWorkflowCallOutputs", "jobs", 0%N, "a1edf340", Pure);
+  ("rule_expression.go", "RuleExpression.checkWorkflowCallOutputs", "outputs", 0%N, "815c5338", DistinctPos);
+  ("rule_expression.go", "RuleExpression.getWorkflowCallOutputsType", "m.Outputs", 0%N, "97bb5cb9", Pure);
+  ("rule_expression.go", "RuleExpression.populateDependantNeedsTypes", "j.Outputs", 0%N, "49d80564", Pure);
+  ("rule_expression.go", "typeOfActionOutputs", "meta.Outputs", 0%N, "5f3f4e08", Pure);
+  ("rule_job_needs.go", "RuleJobNeeds.VisitWorkflowPost", "edges", 0%N, "d6904da7", Pure);
+  ("rule_job_needs.go", "RuleJobNeeds.VisitWorkflowPost", "rule.nodes", 0%N, "fba81a7b", DistinctPos);
+  ("rule_job_needs.go", "detectFirstCycle", "nodes", 0%N, "4745d5bb", KeysSorted);
+  ("rule_matrix.go", "RuleMatrix.VisitJobPre", "m.Rows", 0%N, "09680204", DistinctPos);
+  ("rule_matrix.go", "RuleMatrix.checkExclude", "c.Assigns", 0%N, "7979c51b", Pure);
+  ("rule_matrix.go", "RuleMatrix.checkExclude", "c.Assigns", 1%N, "7eac8842", DistinctPos);
+  ("rule_matrix.go", "RuleMatrix.checkExclude", "m.Rows", 0%N, "43bc1462", Pure);
+  ("rule_matrix.go", "RuleMatrix.checkExclude", "rows", 0%N, "fd741afe", KeysSorted);
+  ("rule_matrix.go", "isYAMLValueSubset", "sub.Props", 0%N, "edfdfa69", Pure);
+  ("rule_permissions.go", "RulePermissions.checkPermissions", "allPermissionScopes", 0%N, "23fa98f6", KeysSorted);
+  ("rule_permissions.go", "RulePermissions.checkPermissions", "p.Scopes", 0%N, "ecf1e1c9", DistinctPos);
+  ("rule_runner_label.go", "RuleRunnerLabel.checkConflict", "rule.compats", 0%N, "7b209986", KeysSorted);
+  ("rule_workflow_call.go", "RuleWorkflowCall.checkWorkflowCallUsesLocal", "call.Inputs", 0%N, "3a150f0f", DistinctPos);
+  ("rule_workflow_call.go", "RuleWorkflowCall.checkWorkflowCallUsesLocal", "call.Secrets", 0%N, "15559ed1", DistinctPos);
+  ("rule_workflow_call.go", "RuleWorkflowCall.checkWorkflowCallUsesLocal", "m.Inputs", 0%N, "153576bb", KeysSorted);
+  ("rule_workflow_call.go", "RuleWorkflowCall.checkWorkflowCallUsesLocal", "m.Secrets", 0%N, "cbf2d7f5", KeysSorted);
+  ("rule_workflow_call.go", "sortedMapKeys", "m", 0%N, "18c5873e", KeysSorted)
 ].
 
-Definition site_eqb (a : string * string * string * N) (b : string * string * string * N * range_class) : bool :=
-  let '(f, g, e, k) := a in let '(f', g', e', k', _) := b in
-  String.eqb f f' && String.eqb g g' && String.eqb e e' && N.eqb k k'.
+Definition site_eqb (a : string * string * string * N * string) (b : string * string * string * N * string * range_class) : bool :=
+  let '(f, g, e, k, h) := a in let '(f', g', e', k', h', _) := b in
+  String.eqb f f' && String.eqb g g' && String.eqb e e' && N.eqb k k' && String.eqb h h'.
 
-Definition known (s : string * string * string * N) : bool := existsb (site_eqb s) allowed.
+Definition known (s : string * string * string * N * string) : bool := existsb (site_eqb s) allowed.
 
 Lemma map_range_sites_known_b : forallb known map_range_sites = true.
 Proof. vm_compute. reflexivity. Qed.
 
 Lemma site_eqb_eq a b : site_eqb a b = true -> fst b = a.
 Proof.
-  destruct a as [[[f g] e] k], b as [[[[f' g'] e'] k'] c]. cbn.
-  rewrite !Bool.andb_true_iff, !String.eqb_eq, N.eqb_eq. intros [[[-> ->] ->] ->]. reflexivity.
+  destruct a as [[[[f g] e] k] h], b as [[[[[f' g'] e'] k'] h'] c]. cbn.
+  rewrite !Bool.andb_true_iff, !String.eqb_eq, N.eqb_eq. intros [[[[-> ->] ->] ->] ->]. reflexivity.
 Qed.
 
 (* every loop over a map in the source is a classified one *)
@@ -136,8 +137,8 @@ Qed.
 
 (* non-vacuity: the list taken from the source has loops of the interesting classes *)
 Example map_range_sites_nonempty :
-  existsb (fun s => String.eqb (snd (fst s)) "rule.compats") map_range_sites = true /\
-  existsb (fun s => String.eqb (snd (fst s)) "exec.Inputs") map_range_sites = true.
+  existsb (fun s => String.eqb (snd (fst (fst s))) "rule.compats") map_range_sites = true /\
+  existsb (fun s => String.eqb (snd (fst (fst s))) "exec.Inputs") map_range_sites = true.
 Proof. split; vm_compute; reflexivity. Qed.
 
 (* ---- Pure: a fold whose step commutes is the same for every visiting order ---- *)
